@@ -325,6 +325,12 @@ impl<'a, T> WaitingState<'a, T> {
         ensures r == chord_res(*old(self), config, old(queued)@), *final(self) == chord_self(*old(self), config, old(queued)@),
     { unimplemented!() }
 }
+// ASSUMED std contracts (not used by the current text of tick_wt; they let a changed arm that
+// combines options be read instead of rejected)
+pub assume_specification<V> [Option::<V>::or] (a: Option<V>, b: Option<V>) -> (r: Option<V>)
+    ensures r == (if a is Some { a } else { b });
+pub assume_specification<V> [bool::then_some::<V>] (b: bool, t: V) -> (r: Option<V>)
+    ensures r == (if b { Some(t) } else { None::<V> });
 spec fn sat_add(a: u16, b: u16) -> u16 { if a + b <= 0xFFFF { (a + b) as u16 } else { 0xFFFFu16 } }
 /// the pending decision after one more millisecond
 spec fn aged<'a, T>(w: WaitingState<'a, T>) -> WaitingState<'a, T> {
